@@ -171,7 +171,7 @@ class Executor:
             self.panic(st, 'nil dereference', pos)
             return
         oid = ptr[1]
-        if oid in self.readonly:
+        if oid in self.readonly and 'zz_verif' not in pos:     # (a harness may refill its own input buffer)
             self.event(st, 'write-to-input', '%s %s' % (self.objtag.get(oid), pos))
         if oid < self.static_limit:
             tag = self.objtag.get(oid)
@@ -1229,9 +1229,10 @@ class Executor:
             et = self.prog.types[ins['type']]['elem']
             z = self.prog.zero(et)
             oid = self.newobj(st, ('A', (z,) * sc), ('alloc', ins['pos'], 'makeslice'))
-            self.alloc_event(st, sc, ins['pos'], 'makeslice')
-            if self.cost_mode:
-                self.add_cost(st, sc * self.elemsize(et), fr.fn.short + ':make-slice')
+            if not ins.get('append_of_make'):
+                self.alloc_event(st, sc, ins['pos'], 'makeslice')
+                if self.cost_mode:
+                    self.add_cost(st, sc * self.elemsize(et), fr.fn.short + ':make-slice')
             env[ins['name']] = ('S', oid, (), 0, sl, sc)
             return None
         if op == 'Index':
@@ -1767,7 +1768,7 @@ class Executor:
 
     def write_cells(self, st, s, at, cells, pos):
         oid, path, off = s[1], s[2], s[3]
-        if oid in self.readonly:
+        if oid in self.readonly and 'zz_verif' not in pos:     # (a harness may refill its own input buffer)
             self.event(st, 'write-to-input', '%s %s' % (self.objtag.get(oid), pos))
         if oid < self.static_limit and oid not in st.dirty:
             st.dirty = st.dirty | {oid}
